@@ -30,6 +30,7 @@ import subprocess
 from vf import build, coq
 from vf.core import REPO, VERIF, sh
 from props import c01_progs as G
+from props import c01_scen as SC
 
 HARNESS_SRC = os.path.join(VERIF, "harness/c/c01_harness.c")
 RECOVER_FNS = [8, 9, 10, 11]        # f8..f11 carry the `recover` trigger
@@ -596,6 +597,15 @@ def objdump_monitor(ctx, objdir):
 
 
 # ================================================================ end-to-end differential
+SCRIPT_FP_PY = """import math
+def uftrace_entry(ctx):
+    n = len(ctx["name"]) + 1
+    x = n / 3.0 + math.sqrt(n + 0.5)
+def uftrace_exit(ctx):
+    n = len(ctx["name"]) + 2
+    y = n / 7.0
+"""
+
 SCRIPT_PY = """def uftrace_entry(ctx):
     x = 1.5 * 2.5 + len(ctx.get("name", ""))
 def uftrace_exit(ctx):
@@ -607,6 +617,9 @@ def option_sets(scratch):
     spy = os.path.join(scratch, "c01_script.py")
     if not os.path.exists(spy):
         open(spy, "w").write(SCRIPT_PY)
+    spf = os.path.join(scratch, "c01_script_fp.py")
+    if not os.path.exists(spf):
+        open(spf, "w").write(SCRIPT_FP_PY)
     return {
         "plain": [],
         "no-libcall": ["--no-libcall"],
@@ -621,6 +634,24 @@ def option_sets(scratch):
         "recover": ["-T", "f2@recover", "-T", "f5@recover"],
         "libargs": ["-A", "strlen@arg1/s", "-A", "snprintf@arg3/s", "-R", "strtol@retval"],
         "finish": ["-T", "finish_now@finish"],
+        "script-fp": ["-S", spf],
+        "max-stack": ["--max-stack", "6"],
+        "max-stack-16": ["--max-stack", "16"],
+        "max-stack-16-l": ["--max-stack", "16", "-l"],
+        "max-stack-64": ["--max-stack", "64"],
+        "disable": ["--disable"],
+        "no-pltbind": ["--no-pltbind"],
+        "num-thread": ["--num-thread", "3"],
+        "clock": ["--clock", "mono_raw"],
+        "caller": ["-C", "f3"],
+        "size-filter": ["-Z", "40"],
+        "trace-off-on": ["-T", "f2@trace_off", "-T", "f4@trace_on"],
+        "watch-cpu": ["-W", "cpu"],
+        "signal-trigger": ["--signal", "SIGUSR1@finish"],
+        "hide": ["-H", "f1"],
+        "fparg": ["-A", "^f[0-9]+$@fparg1/64", "-R", "^f[0-9]+$@retval/f64"],
+        "time-auto-args": ["-t", "1us", "-a"],
+        "backtrace": ["-T", "f1@color=red,backtrace"],
         "small-buffer": ["-b", "4k"],
         "read-trigger": ["-T", "fd@read=proc/statm", "-T", "fc@read=proc/statm", "-T", "f1@read=proc/statm", "-T", "f3@read=page-fault"],
         "args-g": ["-A", "g@arg1/s", "-A", "q@arg1/s"],
@@ -716,9 +747,12 @@ def e2e_compare(nat, traced, live, status_unreliable=False):
     if digest_lines(tout) != digest_lines(nout):
         problems.append("DIGEST lines on stdout differ from the native run")
     if not live and not status_unreliable:      # after a finish trigger the recorder may leave before the program does
-        if status != nrc:
+        if nrc < 0:
+            if not (isinstance(status, str) and status.startswith("terminated by signal: %d " % -nrc)):
+                problems.append("the native program died of signal %d, the traced one: %r" % (-nrc, status))
+        elif status != nrc:
             problems.append("exit status of the traced program is %r, native %r" % (status, nrc))
-        if (trc != 0) != (nrc != 0) and trc != 124:
+        if nrc >= 0 and (trc != 0) != (nrc != 0) and trc != 124:
             problems.append("uftrace exit code %d does not reflect the program's status %d" % (trc, nrc))
     return problems
 
@@ -729,7 +763,8 @@ def e2e_plan(ctx):
     plan = []
     nprog = ctx.n(10, 60)
     per = ctx.n(10, 24)
-    osets = [o for o in option_sets(ctx.scratch) if not o.startswith("args-") and o != "finish"]
+    osets = [o for o in option_sets(ctx.scratch) if not o.startswith("args-") and not o.startswith("max-stack-")
+             and o not in ("finish", "script-fp")]
     for pi in range(nprog):
         threads = 4 if pi % 3 == 1 else 1
         classes = None if pi % 2 == 0 else rng.sample(list(G.CLASSES), 3) + ["vector"]
@@ -745,7 +780,10 @@ def e2e_plan(ctx):
             oset = rng.choice(osets)
             if mode == "cyg" and oset in ("args", "auto-args", "recover"):
                 oset = "plain"
-            combos.append((mode, rng.choice(["-O0", "-O2"]), oset, rng.random() < 0.08 and oset == "plain"))
+            if mode == "fentry-nop" and oset in ("script",):
+                pass
+            combos.append((mode, rng.choice(["-O0", "-O2", "-O2", "-O1", "-O3", "-Os"]), oset,
+                           rng.random() < 0.12 and oset in ("plain", "depth", "nest-libcall", "args", "estimate-return")))
         plan.append((params, combos))
     return plan
 
@@ -774,6 +812,17 @@ def e2e(ctx, objdir):
         sources[key] = c["source"]
         jobs.append((key, {"corpus": c["name"], "seed": c["name"], "threads": 1}, c["source"],
                      {"sigs": [c["name"]]}, c["mode"], c["opt"], c["optset"], False))
+    # clause-audit scenarios: exit paths, call depth beyond --max-stack, FP environment, fork/vfork/exec, signals
+    for si, name in enumerate(sorted(SC.SCENARIOS)):
+        key = "s_" + name
+        sources[key] = SC.source(name)
+        for _ in range(ctx.n(1, 4)):
+            mode = ctx.rng.choice(["pg", "fentry", "cyg", "patchable", "cyg" if name.startswith("ovf") else "fentry-nop"])
+            oset = ctx.rng.choice(SC.PLAN[name])
+            if mode == "cyg" and oset in ("args", "auto-args"):
+                oset = "plain"
+            jobs.append((key, {"scenario": name, "seed": ("scenario", name), "threads": 1}, sources[key],
+                         {"sigs": ["scenario:" + name]}, mode, ctx.rng.choice(["-O1", "-O2"]), oset, False))
     # finish-trigger scenarios: another thread ends tracing while workers sit in (tail-)called functions
     import random
     for fi in range(ctx.n(6, 40)):
@@ -812,6 +861,8 @@ def e2e(ctx, objdir):
             tags.append("e2e:live")
         if "corpus" in params:
             tags.append("corpus:" + params["corpus"])
+        if "scenario" in params:
+            tags.append("scenario:" + params["scenario"])
         if "finish" in params:
             fd = params["finish"]
             tags += ["finish:" + ("tail" if fd["tail"] else "call") + "-chain=%d" % fd["chain"],
@@ -916,7 +967,7 @@ def run(ctx):
 
     # ---- (a) shadow-stack trees
     scases = []
-    n = ctx.n(280, 3000)
+    n = ctx.n(200, 3000)
     groups = {}
     for i in range(n):
         shape = SHAPES[i % len(SHAPES)]
@@ -944,7 +995,7 @@ def run(ctx):
                                   {"kind": "shadow", "tree": json_tree(tree), "env": env, "stderr": c["stderr"]}, True)
     # ---- (b) xmm pair
     xcases = []
-    for i in range(ctx.n(24, 200)):
+    for i in range(ctx.n(10, 200)):
         kind = ["rnd", "hi-zero", "hi-ones", "upper-zero", "rnd"][i % 5]
         before, clobber = gen_xmm(ctx.rng, kind)
         avx, after = run_xmm(h, before, clobber)
@@ -953,7 +1004,7 @@ def run(ctx):
                  sample={"xmm": {"before0": ["%x" % w for w in before[0]], "after0": ["%x" % w for w in after[0]]}}
                  if i == 0 else None)
     hcases = []
-    for i in range(ctx.n(6, 40)):
+    for i in range(ctx.n(3, 40)):
         for hc in run_hook_xmm(h, ctx.rng):
             hcases.append(hc)
             ctx.case(key=("hookxmm", hc[0], tuple(hc[1])), tags=["hookxmm:" + hc[0]],
@@ -965,7 +1016,7 @@ def run(ctx):
             ycases.append(hc)
             ctx.case(key=("hookvec", hc[1], tuple(hc[2])), tags=["hookvec:%s:level=%d" % (hc[1], hc[0])])
     tcases = []
-    for i in range(ctx.n(30, 300)):
+    for i in range(ctx.n(18, 300)):
         tree = gen_tree(ctx.rng, ["tail", "pg", "plttail", "plt", "deep"][i % 5], maxd=4, budget=10)
         c = run_stop_case(h, tree, ctx.rng)
         if c is None:
@@ -978,7 +1029,7 @@ def run(ctx):
         ctx.case(key=("stop", coq_tree(tree), c["cut"]), tags=["finish:in-process"] +
                  (["finish:tail-called-returns"] if "URet 1 (Real" in c["obs"] and any(o[0] == "E" and o[2] == c["slot"] for o in c["ops"][-1:]) else []))
     ecases = []
-    for i in range(ctx.n(24, 300)):
+    for i in range(ctx.n(16, 300)):
         tree = gen_tree(ctx.rng, SHAPES[i % len(SHAPES)], maxd=ctx.rng.choice([3, 5]), budget=ctx.rng.choice([6, 14]))
         c = run_est_case(h, tree)
         if c["crashed"]:
@@ -990,7 +1041,7 @@ def run(ctx):
         tree_tags(c["tree"], tags)
         ctx.case(key=("est", coq_tree(c["tree"])), tags=sorted("est:" + t for t in tags if not t.startswith("leaf")))
     dcases = []
-    for i in range(ctx.n(16, 200)):
+    for i in range(ctx.n(10, 200)):
         nth = ctx.rng.choice([2, 2, 3, 4])
         trees = [gen_tree(ctx.rng, ctx.rng.choice(["pg", "tail", "plt", "cygpg", "mixed"]), maxd=4, budget=8) for _ in range(nth)]
         c = run_sched_case(h, trees, ctx.rng)
